@@ -972,11 +972,27 @@ func handleRelayStream(r *gen.R, url string, n int) {
 	}
 }
 
+// second alterations that can be stacked on any first one (to expose the ORDER of the checks:
+// with two wrong fields the error class tells which check runs first)
+var stackable = []string{
+	"payload-changed", "chain-unhosted-resigned", "chain-hosted-notapp-resigned", "meta-high-over", "token-sig-flip",
+	"client-sig-flip", "servicer-other-resigned", "entropy-negative-resigned", "payload-empty", "token-version-other",
+	"reqhash-short-resigned", "chain-bad-resigned", "servicer-bad-resigned", "app-absent",
+}
+
 func oneCase(seed uint64, a string) *scenario {
 	r := gen.New(seed)
 	s := base(r)
-	s.alter(r, a)
+	parts := strings.Split(a, "+")
+	for _, p := range parts {
+		s.alter(r, p)
+	}
+	s.label = a
+	if len(parts) > 1 && strings.HasPrefix(parts[0], "evidence-") {
+		s.label = parts[0] // prepEvidence keys on the label
+	}
 	s.prepEvidence(r)
+	s.label = a
 	return s
 }
 
@@ -1014,6 +1030,9 @@ func main() {
 				break
 			}
 			caseSeed, caseAlter = r.U64(), a
+			if a != "ok" && r.Chance(1, 4) {
+				caseAlter = a + "+" + stackable[r.Intn(len(stackable))]
+			}
 			oneCase(caseSeed, caseAlter).run()
 			done++
 		}
